@@ -37,3 +37,10 @@ package encrypter
 //@   let c, err = (*GCMEncrypter).Encrypt(e, d)
 //@   let p, err2 = (*GCMEncrypter).Decrypt(e, c)
 //@   ensures err == nil ==> err2 == nil && bytes(p) == old(bytes(d))
+
+// the AES key is the SHA-256 digest of the configured key string: two configured keys give the same cipher key only
+// if their digests collide (tokens issued under another key are then rejected by AEAD authenticity)
+//@ func create32ByteKey(s) (k)
+//@   option nosafety
+//@   modifies nothing
+//@   ensures bytes(k) == sha256of(s) && len(k) == 32
